@@ -21,6 +21,9 @@ def corpus():
         mk(["D0", "S*", "r1", "t200", "t200"], "r", "read error of kind UnexpectedEof while idle: a failure, not a clean close", {}),
         mk(["D0", "c1:" + e("a"), "S*", "D0", "r1", "t200", "t200"], "r", "read error of kind UnexpectedEof, request written, no byte of its reply yet", {1: ("c", [e("a")])}),
         mk(["D0", "S*", "r3", "t200", "t200"], "r", "read timed out while idle", {}),
+        mk(["D0", "c1:" + e("a"), "c2:" + e("b"), "S*", "D0", "S*", "D7", "r8", "t200", "t200"], "r", "reads fail with Interrupted, for good, in the middle of a reply", {1: ("c", [e("a")]), 2: ("c", [e("b")])}),
+        mk(["D0", "c1:" + e("a"), "c2:" + e("b"), "S*", "D0", "S*", "D7", "r9", "t200", "t200"], "r", "reads fail with WouldBlock, for good, in the middle of a reply", {1: ("c", [e("a")]), 2: ("c", [e("b")])}),
+        mk(["D0", "S*", "r8", "t200", "c1:" + e("a"), "t200"], "r", "reads fail with Interrupted while idle", {1: ("c", [e("a")])}),
         mk(["D0", "w", "c1:" + e("a"), "c2:" + e("b"), "t200", "e", "t200"], "w", "writes fail: noidle cannot be sent", {1: ("c", [e("a")]), 2: ("c", [e("b")])}),
         mk(["D0", "c1:" + e("a"), "S*", "D0", "S*", "D0", "w", "c2:" + e("b"), "t200", "e", "t200"], "w", "write fails inside the window", {1: ("c", [e("a")]), 2: ("c", [e("b")])}),
         mk(["D0", "c1:" + e("a"), "S*", "D0", "S*", "D0", "w", "t100", "e", "t200"], "w", "re-idle write fails", {1: ("c", [e("a")])}),
@@ -89,7 +92,7 @@ def gen(ctx):
         elif kind in ("r", "w", "h"):
             # the kind of the transport's read error varies (reset, "unexpected eof", aborted, timed out, broken pipe ...): all are failures
             # ... and so does the way writes fail: an error, or a transport that takes nothing (Ok(0), which write_all reports as an error)
-            labels += [kind + str(rng.randrange(8)) if kind == "r" else rng.choice(["w", "w1"]) if kind == "w" else kind]
+            labels += [kind + str(rng.randrange(10)) if kind == "r" else rng.choice(["w", "w1"]) if kind == "w" else kind]
         else:
             gb = rng.choice(GARBAGE)
             kind = "invalid" if gb in INVALID else "garbage"
@@ -120,7 +123,7 @@ def gen(ctx):
     for _ in range(60 if ctx.tier == "quick" else 1200):
         labels, info, rid = L.gen_fragment_session(rng, rng.choice([3, 8, 20, 50]), tricky=False, cancels=rng.random() < 0.5, drops=rng.random() < 0.3)
         kind = rng.choice(["e", "r"])
-        labels += ["e" if kind == "e" else "r" + str(rng.randrange(8))]
+        labels += ["e" if kind == "e" else "r" + str(rng.randrange(10))]
         labels += ["t200", "t200"]
         info["fault"] = kind
         items.append((L.Sched(labels=labels, note="fragment session + " + kind), info))
